@@ -5,6 +5,7 @@ import (
 	"encoding/base64"
 
 	p2pcrypto "github.com/libp2p/go-libp2p/core/crypto"
+	"golang.org/x/crypto/curve25519"
 	"golang.org/x/crypto/nacl/box"
 
 	"berty.tech/weshnet/v2/pkg/cryptoutil"
@@ -18,6 +19,11 @@ var (
 	nonceRequesterAuthenticate = [cryptoutil.NonceSize]byte{1}
 	nonceResponderAccept       = [cryptoutil.NonceSize]byte{2}
 )
+
+// lowOrderProbeScalar is an arbitrary scalar: X25519 clamps it to a multiple of
+// the cofactor, so its product with a low-order point is the all-zero output
+// that curve25519.X25519 reports as an error.
+var lowOrderProbeScalar = [cryptoutil.KeySize]byte{9}
 
 // Common struct and methods
 type handshakeContext struct {
@@ -91,6 +97,13 @@ func (hc *handshakeContext) receivePeerEphemeralPubKey() error {
 	hc.peerEphemeral, err = cryptoutil.KeySliceToArray(hello.EphemeralPubKey)
 	if err != nil {
 		return errcode.ErrCode_ErrSerialization.Wrap(err)
+	}
+
+	// Reject low-order points: with such a point the shared ephemeral secret
+	// is the same public constant in every session, whatever our own key is,
+	// and a proof signed over it in one session can be replayed in another.
+	if _, err := curve25519.X25519(lowOrderProbeScalar[:], hc.peerEphemeral[:]); err != nil {
+		return errcode.ErrCode_ErrInvalidInput.Wrap(err)
 	}
 
 	return nil
